@@ -47,7 +47,7 @@ func (c c05case) String() string {
 }
 
 var c05strategies = []string{"off-polynomial-share-in", "flip-share-out", "alter-commitment", "alter-reveal", "copy-honest-key", "malformed-share-truncated", "malformed-share-fewer-elements",
-	"malformed-share-garbage", "duplicate-share-changed", "duplicate-commitment-changed", "duplicate-reveal-changed", "withhold-share", "withhold-commitment", "withhold-reveal", "reveal-before-commitment", "reveal-mismatching-valid-key", "truncated-commitment-then-mismatching-valid-key", "second-commitment-for-another-key", "commit-to-garbage-and-reveal-it", "off-polynomial-key-committed-and-revealed-then-the-genuine-key", "none"}
+	"malformed-share-garbage", "duplicate-share-changed", "duplicate-commitment-changed", "duplicate-reveal-changed", "withhold-share", "withhold-commitment", "withhold-reveal", "reveal-before-commitment", "reveal-mismatching-valid-key", "truncated-commitment-then-mismatching-valid-key", "second-commitment-for-another-key", "commit-to-garbage-and-reveal-it", "off-polynomial-key-committed-and-revealed-then-the-genuine-key", "shares-of-a-polynomial-of-too-high-a-degree", "none"}
 
 type c05result struct {
 	d         *drun
@@ -311,6 +311,28 @@ func runC05(cs c05case, rng *mrand.Rand) c05result {
 				}
 				return []dmsg{{from: m.from, to: m.to, data: b, bcast: m.bcast}, m, {from: m.from, to: m.to, data: append([]byte{genuineCommit[0]}, sum[:]...), bcast: true}}
 			}
+		case "shares-of-a-polynomial-of-too-high-a-degree":
+			// the dealer adds a*(i-b)*i^(t-1) to the share it sends to party i (b: itself): the shares it deals lie on a polynomial of
+			// degree t instead of t-1 (its own share is untouched, it commits and reveals honestly). With t < n the public keys then
+			// do not lie on one polynomial of degree t-1, which the cross-check over all t-subsets must notice.
+			if isShare && hit {
+				delta := int64(3) * (int64(m.to) - int64(cs.Byz))
+				for k := 0; k < cs.T-1; k++ {
+					delta *= int64(m.to)
+				}
+				if out, ok := cs.Sch.tweakShare(m.data, -1, delta); ok {
+					m.data, res.effected = out, true
+					if cs.T < cs.N {
+						for _, id := range ids {
+							if id != cs.Byz {
+								res.mustDetect[id] = true
+							}
+						}
+					}
+				} else {
+					res.selfOK = false
+				}
+			}
 		case "reveal-before-commitment":
 			if isCommit && hit && !revealSent {
 				heldCommit = append(heldCommit, m)
@@ -364,6 +386,9 @@ func c05oracle(cs c05case, r c05result, rng *mrand.Rand) (string, string) {
 	}
 	for id := range r.mustDetect {
 		if d.errs[id] == nil {
+			if cs.Strategy == "shares-of-a-polynomial-of-too-high-a-degree" {
+				return "keys-off-one-polynomial-accepted", fmt.Sprintf("honest party %d completed although party %d dealt shares of a polynomial of degree t (the parties' keys do not lie on one polynomial of degree t-1); t < n", id, cs.Byz)
+			}
 			return "off-polynomial-key-accepted", fmt.Sprintf("honest party %d completed although party %d committed to and revealed a key that is off the common polynomial (followed by a second, meaningless reveal of its genuine key); t < n", id, cs.Byz)
 		}
 	}
@@ -408,7 +433,7 @@ func c05oracle(cs c05case, r c05result, rng *mrand.Rand) (string, string) {
 }
 
 func unitC05(e common.Env, p *common.Part) {
-	p.Rule = "directly wired BLS and PS key generations in which one participant is a real backend behind a wrapper that perturbs what goes in and out: off-polynomial share it receives (consistent commit/reveal), flipped outgoing share (PS: x and each y_j), altered commitment / reveal, copy of an honest party's commitment and key, malformed share (truncated, fewer elements, garbage), a commitment cut to its tag byte plus 0 / 1 / 16 / 31 digest bytes followed by the reveal of another valid key, a held-back commitment to a valid key off the polynomial sent after the reveal of that key and a second reveal of the genuine key, a commitment to garbage that is then revealed (garbage of arbitrary sizes and of exactly a group element's size: all ones, all zeros, a pattern, a genuine element with one byte changed), duplicates with a changed second copy (share, commitment, reveal), withheld share / commitment / reveal, reveal delivered before the commitment; x every single victim and all honest parties as victims x (n,t) incl. t=n x PRNG delivery order; context cancelled at quiescence (all remaining KeyGens parked on their condition variable, nothing queued); oracle: honest completers report identical public material, >= t honest completers sign jointly under the reported key, no honest reveal before all commitments were received (by message kind, and by content: no 32-byte window of the key a party finally reveals occurs in anything it transmitted earlier), no panic, no hang; distinct key = (scheme, n, t, Byzantine party, strategy, victims, scalar); non-trivial when the deviation actually reached a victim"
+	p.Rule = "directly wired BLS and PS key generations in which one participant is a real backend behind a wrapper that perturbs what goes in and out: off-polynomial share it receives (consistent commit/reveal), flipped outgoing share (PS: x and each y_j), altered commitment / reveal, copy of an honest party's commitment and key, malformed share (truncated, fewer elements, garbage), a commitment cut to its tag byte plus 0 / 1 / 16 / 31 digest bytes followed by the reveal of another valid key, shares of a polynomial of degree t dealt by one participant, a held-back commitment to a valid key off the polynomial sent after the reveal of that key and a second reveal of the genuine key, a commitment to garbage that is then revealed (garbage of arbitrary sizes and of exactly a group element's size: all ones, all zeros, a pattern, a genuine element with one byte changed), duplicates with a changed second copy (share, commitment, reveal), withheld share / commitment / reveal, reveal delivered before the commitment; x every single victim and all honest parties as victims x (n,t) incl. t=n x PRNG delivery order; context cancelled at quiescence (all remaining KeyGens parked on their condition variable, nothing queued); oracle: honest completers report identical public material, >= t honest completers sign jointly under the reported key, no honest reveal before all commitments were received (by message kind, and by content: no 32-byte window of the key a party finally reveals occurs in anything it transmitted earlier), no panic, no hang; distinct key = (scheme, n, t, Byzantine party, strategy, victims, scalar); non-trivial when the deviation actually reached a victim"
 	type nt struct{ n, t int }
 	nts := []nt{{3, 2}, {3, 3}, {4, 2}, {4, 3}, {4, 4}}
 	if e.Thorough() {
@@ -456,7 +481,7 @@ func unitC05(e common.Env, p *common.Part) {
 					}
 					for _, w := range whichs {
 						vsets := [][]uint16{honest, {honest[0]}, {honest[len(honest)-1]}}
-						if st == "none" || st == "off-polynomial-share-in" || st == "copy-honest-key" || st == "commit-to-garbage-and-reveal-it" || st == "off-polynomial-key-committed-and-revealed-then-the-genuine-key" {
+						if st == "none" || st == "off-polynomial-share-in" || st == "copy-honest-key" || st == "commit-to-garbage-and-reveal-it" || st == "off-polynomial-key-committed-and-revealed-then-the-genuine-key" || st == "shares-of-a-polynomial-of-too-high-a-degree" {
 							vsets = vsets[:1]
 						}
 						for _, vs := range vsets {
